@@ -7,6 +7,8 @@
    most what was asked); the theorems hold for EVERY pair of ends meeting it. *)
 From Coq Require Import QArith Qminmax List Bool Arith.
 From WSI Require Import Vqip Pow Tank Arc QTank Run TankLaws ArcLaws QTankLaws QueueLaws.
+From WSI Require Consts.
+From WSI.gen Require GenConst.
 Import ListNotations.
 Open Scope Q_scope.
 
@@ -91,3 +93,10 @@ Print Assumptions C05_queue_tank_pull_takes_at_most_what_has_arrived.
 Example C05_contract_is_met_by_tanks : contract (nb * nb) nbport.
 Proof. exact tank_contract. Qed.
 Print Assumptions C05_contract_is_met_by_tanks.
+
+(* the thresholds of the models are the constants of the tree under test (T4) *)
+Theorem C05_constants_as_modelled :
+  (WSI.gen.GenConst.c_float_accuracy, WSI.gen.GenConst.c_unbounded_capacity, WSI.gen.GenConst.c_decay_reference_temperature,
+   WSI.gen.GenConst.c_maxiter) = WSI.Consts.modelled_constants.
+Proof. exact WSI.Consts.constants_as_modelled. Qed.
+Print Assumptions C05_constants_as_modelled.
